@@ -203,11 +203,12 @@ CLAIMS["C20"] = {
             "datetime -> FormatDateTime, list -> FormatList, currency -> FormatCurrency, the plain formatter -> nothing) -- "
             "nothing missing and nothing spurious, for every tree (any number of keys, any nesting depth, any set of "
             "formatters); TranslationsInfos::get_icu_keys_inner does so over every namespace (or the single un-namespaced "
-            "tree).",
+            "tree), and the set get_icu_keys hands to the key tables (its first two statements, lifted verbatim, rule E3) holds "
+            "exactly those options, starting from the empty set.",
     "note": "Not covered: how VarInfo.range_count / formatters are accumulated across locales and through foreign keys (the "
             "accumulator side is C08's get_keys / push_var / push_count contracts), get_keys / Options::into_data_keys (the "
-            "ICU key tables, icu_datagen), get_locales / get_locales_langids (iterator adapters), get_icu_keys' "
-            "`HashSet::new()` + flat_map wrapper. Rewrites: I3 (values() -> iter()), I4 (iter_vars() -> variables.iter(), "
+            "ICU key tables, icu_datagen), get_locales / get_locales_langids (iterator adapters), the third statement of "
+            "get_icu_keys (flat_map over the set). Rewrites: I3 (values() -> iter()), I4 (iter_vars() -> variables.iter(), "
             "the text of iter_vars is pinned), I5 (`in &set` -> `in set.iter()`), K2 (`P => continue` arm of a let-match "
             "-> guard match with the remaining statements in the other arm, the duplicated arm proved dead). Assumed: vstd's "
             "BTreeMap / BTreeSet iterator and HashSet::insert specs, lawfulness of the derived Ord of Key / Formatter and of "
